@@ -240,7 +240,14 @@ func MustPass(g *cfg.CFG, isEvent, isTarget func(ast.Node) bool) (missed []ast.N
 			// target inside the node is evaluated before/with the event of the same node only
 			// if the target is a sub-node preceding it; we treat a node as event-first unless
 			// the node itself is the target.
-			if isTarget(nd) {
+			tgt := false
+			Inspect(nd, false, func(x ast.Node) bool {
+				if isTarget(x) {
+					tgt = true
+				}
+				return !tgt
+			})
+			if tgt {
 				targets++
 				evInside := false
 				if rs, ok := nd.(*ast.ReturnStmt); ok {
